@@ -52,7 +52,7 @@ def replay (j : Json) : R Verdict := do
     if sortJ (toJson v) != sortJ doc then dis := some "to_json differs from the model's toJson"
   let kindV := if !pf.isEmpty then "PROPFAIL" else if dis.isSome then "DISAGREE" else "ok"
   let what := match pf, dis with | (_, w) :: _, _ => w | [], some d => d | [], none => ""
-  return { case, kind := kindV, props := (pf.map (·.1)).eraseDups, what, tags, size := 1,
+  return { case, kind := kindV, props := (pf.map (·.1)).eraseDups, what, tags, size := 1, dis := dis.getD "",
            fails := pf.map (fun (p, w) => p ++ ": " ++ w) }
 
 end Driver.CodecReplay
